@@ -204,13 +204,17 @@ def worker_shrink(args):
     prop = load(pid)
     best = {"case": None, "size": None, "detail": ""}
 
+    expired = [False]
+
     def on_alarm(signum, frame):
-        raise _Stop()
+        expired[0] = True
 
     @hseed(shard_seed(seed, pid, k))
     @_hyp_settings(n, True)
     @given(prop.strategy(tier))
     def t(case):
+        if expired[0]:
+            raise _Stop()
         res = run_case(prop, case)
         for s, detail in res.violations:
             if s == sig:
